@@ -204,6 +204,22 @@ def run(prog, rep, tier):
                     if x[0] == "call":
                         nm_ = x[2].split("::")[-1]
                         srcs.add("call:" + nm_)
+                        if nm_ in ("min", "clamp"):
+                            # min(declared, bound): bounded when another operand is a constant or derives from the block size
+                            mc_ = [z for z in ab.calls if z.bb == x[1]][0]
+                            okb = False
+                            for a_ in mc_.args:
+                                if ab.eval_int(a_) is not None:
+                                    okb = True
+                                elif a_[0] != "k" and any(y[0] == "call" and "blocksz" in y[2].split("::")[-1] or (y[0] in ("arg", "local") and any("blocksz" in str(q) for q in y[-1])) for y in ab.origins(a_)):
+                                    okb = True
+                            if not okb:
+                                for a_ in mc_.args:
+                                    if a_[0] != "k":
+                                        for y in ab.origins(a_):
+                                            if y[0] == "call" and y[2].split("::")[-1] in DECL:
+                                                declared.append(y[2].split("::")[-1] + "() via min")
+                            continue
                         if nm_ in DECL or nm_ in ("filesz", "filesz_actual", "size"):
                             declared.append(nm_ + "()")
                     elif x[0] in ("arg", "local"):
